@@ -233,6 +233,11 @@ C04_JSplit == (phase = "links" /\ WellPosed) => \A j \in 1..NC(W) : IsJ(W,j) =>
            ELSE IF W.lpar[l] = 0 THEN Tot(flow[l]) = RMul(inflow, RMax(Zero, RSub(One, tot)))
            ELSE Tot(flow[l]) = RDiv(RMul(inflow, fr[l]), RMax(One, tot))
 
+\* C10 ---------------------------------------------------------------------------------------------
+\* restarting from a saved state: the start-up sequence of a new run (parameters, initial flush, parameters, links) applied
+\* to a state that has already been flushed changes nothing, so the saved state determines the continuation
+C10_StartupNoop == (phase \notin {"built", "pars0"} /\ pval # <<>>) => Flush(W, pval, stock, 1) = stock
+
 \* C05 ---------------------------------------------------------------------------------------------
 C05_Rows == \A c \in 1..NC(W) : W.kind[c] = "timed" => (Len(stock[c]) = Rows(W,c) /\ W.rows[c] = Rows(W,c))
 \* the shift relation: row r at the next step is row r+1 minus its outflows plus duration-preserving arrivals;
